@@ -13,6 +13,7 @@ THEOREMS = ["Gozod.C18." + t for t in [
     "finalize_priority", "finalize_check_first", "finalize_default_last", "finalize_silent_parse", "finalize_silent_custom", "site_winner",
     "c18_wired_partial", "c18_all_sites_partial", "c18_wired_full_false", "gap_breaks_priority",
     "c18_base_nonempty", "c18_locales", "c18_locales_cover",
+    "setconfig_history", "setconfig_keeps_locale", "setconfig_keeps_custom", "crossed_setconfig_breaks_history",
 ]]
 
 GEN = os.path.join(C.LEAN, "Gozod", "Gen")
@@ -101,6 +102,9 @@ def key(op, impl, M, S):
     d = SITES.get(site, {})
     if ">" in site:   # outer>inner: the model's entry is the inner wrapper's
         d = SITES.get(site.split("@")[0] + "@" + site.split(">")[-1], d)
+    if t[1] == "hist" and impl != M:
+        # the stored global configuration is not what the history of SetConfig calls denotes
+        return "hist:%s:model-differs" % d.get("leaf", site)
     if t[1] == "silent" and impl != M:
         # message functions / a source answering "": the implementation leaves the priority chain the model proves
         return "silent:%s:model-differs" % d.get("leaf", site)
@@ -111,7 +115,7 @@ def key(op, impl, M, S):
 
 def describe(op):
     t = C.op_body(op).split(" ")
-    if t[1] == "loc":
+    if t[1] in ("loc", "hist"):
         return C.op_comment(op).strip()
     return ("%s; configured sources %s of applicable %s (c = check message \"CHK\", s = schema message \"SCH\", p = ParseContext{Error: →\"CTX\"}, "
             "g = SetConfig(CustomError: →\"CUS\"), l = SetConfig(LocaleError: →\"LOC\")); observed = which sentinel is ZodIssue.Message (d = built-in text)"
